@@ -10,7 +10,7 @@ Terms are tokens into the vocabulary below (i = IRI, l = literal, b = blank node
 shares its token with the same term used inside triples.
 
 Observations (all canonical up to ONE renaming of blank nodes, graph names included):
-  per format F:  emit  = {(graph label as spelled | U, s, p, o)} read from the serializer's output by a
+  per format F:  emit  = {(graph the label routes to (no label = default graph), s, p, o)} read from the serializer's output by a
                          small independent reader (N-Quads 4th column, TriG block headers, TriX <graph>
                          children, hext 6th element, JSON-LD top-level @graph/@id, patch rows)
                  route = quads of Dataset().parse(data=output, format=F)
@@ -34,7 +34,7 @@ ID = "C06"
 LEAN_TARGETS = ["RV.C06.Props", "RV.C06.Audit"]
 AUDIT = "RV/C06/Audit.lean"
 DRIVER = "drv_c06"
-CASES = {"quick": 320, "thorough": 6000, "search": 3000}
+CASES = {"quick": 2000, "thorough": 40000, "search": 20000}
 RULE = ("random datasets: 0-4 named graphs (IRI and blank-node names, registered-but-empty graphs, empty or "
         "non-empty default graph), triples shared by several graphs, blank nodes shared across graphs and with "
         "graph names, graph names occurring as subject/object, awkward literals; built through Dataset(), "
@@ -46,7 +46,9 @@ ASSUMPTIONS = ["store.contexts() lists every graph that holds a triple (C02)",
                "triple-level text (term spelling, literal quoting, prefixes) round-trips (C03/C05); literals typed "
                "xsd:string are identified with plain literals (RDF 1.1) when comparing",
                "blank nodes linked only through blank-node cycles inside one graph are not generated (JSON-LD node "
-               "selection is C03's subject)",
+               "selection is C03's subject); RDF collections are not generated (list inlining is C03's subject) - the one "
+               "cross-graph effect found by hand, JSON-LD @list cutting a cell shared with another graph, is known finding "
+               "C06-K1 and lies outside the block-level model (blocks are assumed to carry their triples verbatim)",
                "fresh BNode() identifiers are distinct from each other and from every label in the document"]
 TRUSTED = ["harness/c06.py generators, the per-format block readers and the canonicaliser (brute-force minimal "
            "relabelling of blank nodes)", "harness/isoutil.py (exact iso decision, cross-validated by C14)",
@@ -55,7 +57,9 @@ TRUSTED = ["harness/c06.py generators, the per-format block readers and the cano
 E = "http://e/"
 IRIS = {"i1": URIRef(E + "a"), "i2": URIRef(E + "b"), "i3": URIRef(E + "c/d#e"), "i4": URIRef(E + "g1"),
         "i5": URIRef(E + "g2"), "i6": URIRef("urn:g:3"), "i7": URIRef(E + "p"), "i8": URIRef(E + "q"),
-        "i9": RDF.type}
+        "i9": RDF.type,
+        # used only by hand-written witnesses (the generator builds no RDF collections — C03's subject)
+        "i10": RDF.first, "i11": RDF.rest, "i12": RDF.nil}
 LITS = {"l1": Literal(""), "l2": Literal("x"), "l3": Literal('a"b\\c\'d'), "l4": Literal("line1\nline2\ttab"),
         "l5": Literal("é☃\U0001F600"), "l6": Literal("<&> {} # _:z . ; }"), "l7": Literal("x", lang="en"),
         "l8": Literal(0), "l9": Literal(False), "l10": Literal("x", datatype=URIRef(E + "dt"))}
@@ -111,8 +115,8 @@ def canon(rows):
     bs = sorted({x for r in rows for x in r if x[:1] == "b"})
     if not bs:
         return sorted(rows)
-    if len(bs) > 7:
-        raise RuntimeError("too many blank nodes for the brute-force canonicaliser")
+    if len(bs) > 7:      # never produced by the generator; lossy but deterministic (the oracle does not depend on it)
+        return sorted({tuple("b?" if x[:1] == "b" else x for x in r) for r in rows}) + [("bnodes", str(len(bs)))]
     # cheap invariant to cut the permutations: blank nodes are first ordered by a renaming-independent signature
     def sig(b):
         return sorted(tuple(("b" if y[:1] == "b" else y) if y != b else "*" for y in r) for r in rows if b in r)
@@ -386,6 +390,36 @@ def _jl_node_id(x):
     return ("b", x[2:]) if x.startswith("_:") else ("i", x)
 
 
+_LISTN = [0]
+
+
+def _jl_value(v):
+    if isinstance(v, dict) and "@id" in v:
+        return _jl_node_id(v["@id"])
+    if isinstance(v, dict) and "@value" in v:
+        val = v["@value"]
+        if isinstance(val, bool):          # native JSON values (the serializer uses them for xsd:boolean/integer)
+            val = "true" if val else "false"
+        elif isinstance(val, int):
+            val = str(val)
+        elif not isinstance(val, str):
+            raise ValueError("native JSON value")
+        return _lkey(val, v.get("@type"), v.get("@language"))
+    raise ValueError("unexpected JSON-LD value %r" % (v,))
+
+
+def _jl_list(items, spell, st):
+    """@list → rdf:first/rest cells with labels of their own"""
+    head = ("i", str(RDF.nil))
+    for v in reversed(items):
+        _LISTN[0] += 1
+        cell = ("b", "jl%d" % _LISTN[0])
+        st.append((spell, cell, ("i", str(RDF.first)), _jl_value(v)))
+        st.append((spell, cell, ("i", str(RDF.rest)), head))
+        head = cell
+    return head
+
+
 def _jl_node(node, spell, st):
     s = _jl_node_id(node["@id"])
     for k, vals in node.items():
@@ -397,19 +431,10 @@ def _jl_node(node, spell, st):
             if k == "@type":
                 o = _jl_node_id(v) if isinstance(v, str) else _jl_node_id(v["@id"])
                 st.append((spell, s, ("i", str(RDF.type)), o))
-            elif isinstance(v, dict) and "@id" in v:
-                st.append((spell, s, ("i", k), _jl_node_id(v["@id"])))
-            elif isinstance(v, dict) and "@value" in v:
-                val = v["@value"]
-                if isinstance(val, bool):          # native JSON values (the serializer uses them for xsd:boolean/integer)
-                    val = "true" if val else "false"
-                elif isinstance(val, int):
-                    val = str(val)
-                elif not isinstance(val, str):
-                    raise ValueError("native JSON value")
-                st.append((spell, s, ("i", k), _lkey(val, v.get("@type"), v.get("@language"))))
+            elif isinstance(v, dict) and "@list" in v:
+                st.append((spell, s, ("i", k), _jl_list(v["@list"], spell, st)))
             else:
-                raise ValueError("unexpected JSON-LD value %r" % (v,))
+                st.append((spell, s, ("i", k), _jl_value(v)))
 
 
 def read_jsonld(text):
@@ -516,7 +541,7 @@ def stmt_rows(st, bmap):
     rows = []
     for sp, s, p, o in st:
         if sp is None:
-            g = "U"
+            g = "D"       # compared by destination: "no label" and "<urn:x-rdflib:default>" both mean the default graph
         elif sp[0] == "anon":
             g = "b~anon%d" % sp[1]
         else:
@@ -570,7 +595,7 @@ def run_impl(case):
             viol.append(f"unreadable-{F}: output not readable by the independent reader: {e!r}"[:300])
         # (b) where does each triple land after parsing into an empty Dataset
         try:
-            back = Dataset().parse(data=data, format=fmt)
+            back = Dataset(default_union=(api % 3 == 0)).parse(data=data, format=fmt)
             got = got_quads(back)
         except Exception as e:  # noqa: BLE001
             obs.append("ERR-parse:" + _exc(e))
@@ -595,7 +620,7 @@ def run_impl(case):
         try:
             patch = ds.serialize(format="patch", target=target)
             rows = read_patch(patch)
-            obs.append(line([(op, "U" if g is None else tok_of_key(g), tok_of_key(s), tok_of_key(p), tok_of_key(o))
+            obs.append(line([(op, "D" if g is None else tok_of_key(g), tok_of_key(s), tok_of_key(p), tok_of_key(o))
                              for op, g, s, p, o in rows], exact=True))
             exp1 = expected_quads(quads, DEFAULT_ID)
             adds = {(r[2], r[3], r[4], r[1]) for r in rows if r[0] == "A"}
@@ -655,7 +680,7 @@ def select_model_obs(case, out):
     for cmd, o in zip(lines, out):
         if cmd.startswith("load"):
             continue
-        rows = [tuple(x.split(",")) for x in o.split(" ") if x]
+        rows = [tuple("D" if y == "U" else y for y in x.split(",")) for x in o.split(" ") if x]
         if cmd == "diff":
             rows = [(r[0], r[4], r[1], r[2], r[3]) for r in rows]
         res.append(line(rows, exact=cmd in ("diff", "apply")))
@@ -706,5 +731,27 @@ def _m_patch_union(case, result):
     return _only(result, "patch-apply") and case["kind"] == "dsu"
 
 
-MATCHERS = {"jsonld_bnode_named_graph": _m_jsonld_bnode_graph, "trix_bnode_graph_name": _m_trix_bnode_graph,
-            "patch_default_union_diff": _m_patch_union}
+def _m_patch_empty_target(case, result):
+    """pre-fix patch: the target dataset is empty (falsy) and the patch was written as an add-patch of d1"""
+    d2 = case.get("d2")
+    return _only(result, "patch-apply") and d2 is not None and not d2["quads"] and bool(case["quads"])
+
+
+def _m_trig_squared(case, result):
+    """pre-fix TriG: only TriG fails; a blank-node graph name with triples occurs exactly once as an object and never as a subject"""
+    names = {q[3] for q in case["quads"] if q[3][0] == "b"}
+    return _only(result, "roundtrip-trig") and any(
+        sum(1 for q in case["quads"] if q[2] == g) == 1 and not any(q[0] == g for q in case["quads"]) for g in names)
+
+
+def _m_jsonld_list_cell(case, result):
+    """JSON-LD @list inlining: only json-ld fails and a blank node that has rdf:first in one graph occurs in another graph"""
+    cells = {(q[0], q[3]) for q in case["quads"] if q[1] == "i10" and q[0][0] == "b"}
+    return _only(result, "roundtrip-jsonld") and any(
+        c in q[:3] and q[3] != g for c, g in cells for q in case["quads"])
+
+
+MATCHERS = {"jsonld_list_cell_shared_across_graphs": _m_jsonld_list_cell,
+            "jsonld_bnode_named_graph": _m_jsonld_bnode_graph, "trix_bnode_graph_name": _m_trix_bnode_graph,
+            "patch_default_union_diff": _m_patch_union, "patch_empty_target": _m_patch_empty_target,
+            "trig_bnode_label_squared": _m_trig_squared}
